@@ -3,8 +3,17 @@
 package c14
 
 import (
+	"bytes"
+	"encoding/binary"
 	"fmt"
+	"io"
 	"testing"
+	"time"
+
+	"github.com/Tnze/go-mc/save/region"
+
+	"verifsim/oracle/anvil"
+	"verifsim/simdisk"
 
 	"verifsim/kernel"
 
@@ -212,6 +221,161 @@ func scenarioHuge(c *harness.Ctx) {
 	c.FP = c.Hash
 }
 
+// scenarioSparse: the history starts from a valid region file whose chunks
+// live at very high sector numbers (the location field has 24 bits: up to
+// sector 16 777 215, i.e. 64 GiB) - a sparse file as another tool may have left
+// it. Offsets beyond 2^31 and 2^32 bytes are reached; everything is checked by
+// the independent parser on the sparse image.
+func scenarioSparse(c *harness.Ctx) {
+	tp := c.T
+	defer simrt.SetClock(nil)
+	clk := &simrt.Clock{T: time.Unix(1_700_000_000, 0), Tape: tp}
+	simrt.SetClock(clk)
+	sp := simdisk.NewSparse()
+	var rw io.ReadWriteSeeker = sp
+	if tp.Bool(1, 2) {
+		rw = simdisk.NoWriterAt{S: sp}
+	}
+	if _, err := region.CreateWriter(rw); err != nil {
+		c.Fail("region.open", "open", "error", "CreateWriter on a sparse file: %v", err)
+		return
+	}
+	bases := []int{65535 - 12, 65536, 65536 + 700, 1<<19 - 12, 1 << 19, 1<<19 + 9, 1<<20 - 12, 1 << 20, 1<<20 + 20, 1<<21 + 77, 1 << 23, 1<<24 - 300}
+	model := map[regionsim.Key][]byte{}
+	seq := 0
+	place := func(k regionsim.Key, sector, size int) {
+		seq++
+		data := regionsim.Content(k, seq, size)
+		cnt := (size + 4 + 4095) / 4096
+		var hdr [4]byte
+		binary.BigEndian.PutUint32(hdr[:], uint32(size))
+		sp.WriteAt(hdr[:], int64(sector)*4096)
+		sp.WriteAt(data, int64(sector)*4096+4)
+		binary.BigEndian.PutUint32(hdr[:], uint32(sector)<<8|uint32(cnt))
+		sp.WriteAt(hdr[:], 4*int64(k.Z*32+k.X))
+		binary.BigEndian.PutUint32(hdr[:], 1_600_000_000)
+		sp.WriteAt(hdr[:], 4096+4*int64(k.Z*32+k.X))
+		model[k] = data
+	}
+	nPlaced := 2 + tp.Choose(6)
+	used := map[int]bool{}
+	var placed []regionsim.Key
+	for i := 0; i < nPlaced; i++ {
+		b := tp.Choose(len(bases))
+		if used[b] {
+			continue
+		}
+		used[b] = true
+		k := regionsim.Key{X: tp.Choose(32), Z: tp.Choose(32)}
+		if _, dup := model[k]; dup {
+			continue
+		}
+		place(k, bases[b], 1+tp.Choose(9000))
+		placed = append(placed, k)
+	}
+	pSparse.Hit()
+	sp.Pos = 0
+	r, err := region.Load(rw)
+	if err != nil {
+		c.Fail("region.reload", "reopen", "load-error", "Load of a valid sparse region failed: %v", err)
+		return
+	}
+	c.Config["placed_sectors"] = len(placed)
+	check := func(after string) bool {
+		entries, err := anvil.Header(sp, sp.Size)
+		if err != nil {
+			c.Fail("region.format", "image", "header", "after %s: %v", after, err)
+			return false
+		}
+		if err := anvil.CheckLayout(entries, false, 0, 0); err != nil {
+			c.Fail("region.format", "image", "layout", "after %s the file is not a valid Anvil region: %v", after, err)
+			return false
+		}
+		seen := map[regionsim.Key]bool{}
+		for _, e := range entries {
+			k := regionsim.Key{X: e.X, Z: e.Z}
+			seen[k] = true
+			want, ok := model[k]
+			if !ok {
+				c.Fail("region.format", "image", "phantom-entry", "after %s: header entry for chunk (%d,%d) which was never written", after, e.X, e.Z)
+				return false
+			}
+			data, err := anvil.Chunk(sp, sp.Size, e)
+			if err != nil || !bytes.Equal(data, want) {
+				c.Fail("region.format", "image", "chunk-data", "after %s: chunk (%d,%d) at sector %d on disk differs from what was last written (%v)", after, e.X, e.Z, e.Sector, err)
+				return false
+			}
+		}
+		for _, k := range regionsim.SortedKeys(model) {
+			if !seen[k] {
+				c.Fail("region.format", "image", "missing-entry", "after %s: chunk (%d,%d) has no header entry", after, k.X, k.Z)
+				return false
+			}
+			got, err := r.ReadSector(k.X, k.Z)
+			if err != nil || !bytes.Equal(got, model[k]) {
+				c.Fail("region.read", "read", "wrong-data", "after %s: ReadSector(%d,%d) gives err=%v, %d bytes; %d bytes were last written", after, k.X, k.Z, err, len(got), len(model[k]))
+				return false
+			}
+		}
+		return true
+	}
+	if !check("loading the sparse file") {
+		return
+	}
+	for i := 4 + tp.Choose(16); i > 0; i-- {
+		var k regionsim.Key
+		if len(placed) > 0 && tp.Bool(2, 3) {
+			k = placed[tp.Choose(len(placed))]
+		} else {
+			k = regionsim.Key{X: tp.Choose(32), Z: tp.Choose(32)}
+		}
+		switch tp.Choose(5) {
+		case 0, 1:
+			size := 1 + tp.Choose(9000)
+			if old, ok := model[k]; ok && tp.Bool(1, 2) {
+				size = ((len(old)+4+4095)/4096)*4096 - 4 - tp.Choose(50) // same sector count: in place, at the high sector
+			}
+			seq++
+			data := regionsim.Content(k, seq, size)
+			if err := r.WriteSector(k.X, k.Z, data); err != nil {
+				c.Fail("region.write", "write", "error", "WriteSector(%d,%d,%d bytes) failed on a healthy disk: %v", k.X, k.Z, size, err)
+				return
+			}
+			model[k] = data
+			if !check(fmt.Sprintf("WriteSector(%d,%d,%d bytes)", k.X, k.Z, size)) {
+				return
+			}
+		case 2:
+			_, want := model[k]
+			if r.ExistSector(k.X, k.Z) != want {
+				c.Fail("region.exist", "exist", fmt.Sprint(want), "ExistSector(%d,%d) wrong", k.X, k.Z)
+				return
+			}
+		case 3:
+			sp.Pos = 0
+			nr, err := region.Load(rw)
+			if err != nil {
+				c.Fail("region.reload", "reopen", "load-error", "re-opening failed: %v", err)
+				return
+			}
+			if nr.VerifOffsets() != r.VerifOffsets() || nr.Timestamps != r.Timestamps {
+				c.Fail("region.reload", "fresh-load", "offsets", "offsets/timestamps after a fresh Load differ from the live region")
+				return
+			}
+			r = nr
+		default:
+			if !check("a read round") {
+				return
+			}
+		}
+	}
+	c.Fold(uint64(sp.Size), uint64(len(model)))
+	c.Nontrivial = true
+	c.FP = c.Hash
+}
+
+var pSparse = simrt.NewProbe("region.sparse.file.with.chunks.at.sectors>=2^16..2^24")
+
 var pHuge = simrt.NewProbe("region.file.beyond.sector.65535(>256MiB)")
 
 var prop = &harness.Property{
@@ -220,6 +384,7 @@ var prop = &harness.Property{
 		{Name: "history", Weight: 600, Run: scenarioHistory},
 		{Name: "pair", Weight: 120, Run: scenarioPair},
 		{Name: "huge", Weight: 1, Run: scenarioHuge},
+		{Name: "sparse", Weight: 40, Run: scenarioSparse},
 	},
 	Real:        []string{"save/region: CreateWriter, Load, WriteSector, ReadSector, ExistSector, PadToFullSector (time.Now woven to the simulated clock)"},
 	Stub:        []string{"disk (simdisk.File, with and without io.WriterAt)", "clock (simrt.Clock with jumps between the clock reads of one operation)"},
